@@ -66,6 +66,7 @@ def run(rep: Report, tier: str) -> None:
 	rule_c(rep, idx)
 	rule_d(rep, idx)
 	rule_e(rep, idx)
+	rule_f(rep, idx)
 
 
 # ---- (a) load / unload pairing ------------------------------------------------------------------------------------
@@ -342,3 +343,112 @@ def rule_e(rep: Report, idx: SourceIndex) -> None:
 	r.check(deep, 'to_temporary-is-deep', tt.where, 'ReflectionBase.to_temporary no longer clones each nested attribute with to_temporary(): the copy shares its nested attrs with the declaration symbol stored in the SymbolDB, so a type variable resolved two or more levels deep (dict[str, list[T]]) is written into the shared symbol and the first actual type sticks for every later module', unparse(tt.node)[-160:])
 	stack = rf.func('ReflectionBase.stack')
 	r.check('Reflection(' in unparse(stack.node) and 'origin=self' in unparse(stack.node), 'stack-makes-new-instance', stack.where, 'ReflectionBase.stack no longer creates a new Reflection over the original')
+
+
+# ---- (f) reflection attrs are written only on temporaries -------------------------------------------------------------------------------
+
+def rule_f(rep: Report, idx: SourceIndex) -> None:
+	"""Symbols reachable from the SymbolDB are shared by every module of the session. A function that writes into `<param>.attrs[...]` (directly or
+	by handing the parameter on to such a function) is an in-place mutator; every call of a mutator must pass a fresh deep copy
+	(`<x>.to_temporary()`), or an attribute taken from the mutator's own (already fresh) parameter."""
+	r = rep.rule('C04/reflection-attrs-written-on-temporaries-only', 'every function that writes `<param>.attrs[i] = ...` (or passes the parameter to one that does) is only called with `.to_temporary()` copies or with attrs of its own parameter: shared declaration symbols are never rewritten for the rest of the session', floor=3)
+	files = ['rogw/tranp/semantics/reflection/traits.py', 'rogw/tranp/semantics/reflection/helper/template.py', 'rogw/tranp/semantics/reflection/reflection.py', 'rogw/tranp/semantics/reflections.py']
+	funcs = []
+	for rel in files:
+		m = idx.mod(rel)
+		rep.consulted(rel)
+		for q, f in m.functions.items():
+			if '#' not in q:
+				funcs.append(f)
+
+	def pos_params(f) -> list[str]:
+		a = f.node.args
+		ps = [x.arg for x in a.posonlyargs + a.args]
+		return ps[1:] if ps and ps[0] in ('self', 'cls') else ps
+
+	# direct mutators: param p with a store into p.attrs[...] or seqs.update(p.attrs, ...)
+	mut: dict[int, set[str]] = {}
+	from vlib.match import X
+	for f in funcs:
+		ps = set(pos_params(f))
+		for n in ast.walk(X(f)):  # alias-expanded: `attrs = primary.attrs; seqs.update(attrs, ...)` is a write into primary.attrs
+			tgts = []
+			if isinstance(n, ast.Assign):
+				tgts = n.targets
+			elif isinstance(n, ast.AugAssign):
+				tgts = [n.target]
+			for t in tgts:
+				if isinstance(t, ast.Subscript) and isinstance(t.value, ast.Attribute) and t.value.attr == 'attrs' and isinstance(t.value.value, ast.Name) and t.value.value.id in ps:
+					mut.setdefault(id(f), set()).add(t.value.value.id)
+			if isinstance(n, ast.Call) and attr_chain(n.func) == 'seqs.update' and n.args and isinstance(n.args[0], ast.Attribute) and n.args[0].attr == 'attrs' and isinstance(n.args[0].value, ast.Name) and n.args[0].value.id in ps:
+				mut.setdefault(id(f), set()).add(n.args[0].value.id)
+	by_name: dict[str, list] = {}
+	for f in funcs:
+		by_name.setdefault(f.name, []).append(f)
+
+	def callee_of(f, c: ast.Call):
+		"""same-class method / module function / Class.static method by simple name"""
+		if isinstance(c.func, ast.Attribute):
+			cands = by_name.get(c.func.attr, [])
+			if isinstance(c.func.value, ast.Name) and c.func.value.id in ('self', 'cls') and f.cls is not None:
+				return [g for g in cands if g.cls is f.cls]
+			if isinstance(c.func.value, ast.Name):
+				return [g for g in cands if g.cls is not None and g.cls.name == c.func.value.id]
+			return []
+		if isinstance(c.func, ast.Name):
+			return [g for g in by_name.get(c.func.id, []) if g.cls is None]
+		return []
+
+	def arg_for(g, c: ast.Call, pname: str):
+		ps = pos_params(g)
+		if pname in ps and ps.index(pname) < len(c.args):
+			return c.args[ps.index(pname)]
+		return next((kw.value for kw in c.keywords if kw.arg == pname), None)
+
+	# propagate: passing an own parameter on to a mutated position makes that parameter mutated too
+	changed = True
+	while changed:
+		changed = False
+		for f in funcs:
+			ps = set(pos_params(f))
+			for c in ast.walk(f.node):
+				if not isinstance(c, ast.Call):
+					continue
+				for g in callee_of(f, c):
+					for pname in mut.get(id(g), ()):
+						a = arg_for(g, c, pname)
+						# only private helpers inherit the obligation; a public entry point that hands its own parameter on must copy it first
+						if isinstance(a, ast.Name) and a.id in ps and a.id not in mut.get(id(f), set()) and f.name.startswith('_') and not f.name.endswith('__'):
+							mut.setdefault(id(f), set()).add(a.id)
+							changed = True
+	mutators = [f for f in funcs if id(f) in mut]
+	r.note('in-place mutators: ' + ', '.join(sorted(f'{f.qualname}({",".join(sorted(mut[id(f)]))})' for f in mutators)))
+	n_sites = 0
+	for f in funcs:
+		own_mut = mut.get(id(f), set())
+		for c in walk_no_nested(f.node):
+			if not isinstance(c, ast.Call):
+				continue
+			for g in callee_of(f, c):
+				for pname in sorted(mut.get(id(g), ())):
+					a = arg_for(g, c, pname)
+					if a is None:
+						continue
+					n_sites += 1
+					key = f'{f.qualname}->{g.qualname}({pname}={unparse(a)[:50]})'
+					fresh = isinstance(a, ast.Call) and isinstance(a.func, ast.Attribute) and a.func.attr == 'to_temporary'
+					# an attribute of the caller's own mutated (hence fresh, deep) parameter: `for attr in symbol.attrs: recurse(attr)` / `symbol.attrs[i]`
+					derived = False
+					if isinstance(a, ast.Name) and a.id in own_mut:
+						derived = True
+					elif isinstance(a, ast.Name):
+						for lp in ast.walk(f.node):
+							if isinstance(lp, (ast.For, ast.comprehension)) and a.id in {x.id for x in ast.walk(lp.target) if isinstance(x, ast.Name)}:
+								roots = {x.value.id for x in ast.walk(lp.iter) if isinstance(x, ast.Attribute) and x.attr == 'attrs' and isinstance(x.value, ast.Name)}
+								if roots & own_mut:
+									derived = True
+					elif isinstance(a, ast.Subscript) and isinstance(a.value, ast.Attribute) and a.value.attr == 'attrs' and isinstance(a.value.value, ast.Name) and a.value.value.id in own_mut:
+						derived = True
+					r.check(fresh or derived, key, (f.module.relpath, c.lineno), f'{f.qualname} passes `{unparse(a)}` to {g.qualname}, which writes into `{pname}.attrs` in place; the argument is neither a `.to_temporary()` copy nor part of one, so a symbol shared through the SymbolDB is rewritten and the first actual type sticks for every later module of the session (history dependence)', unparse(c)[:140])
+	if n_sites < 2:
+		r.skip('mutator-call-sites', (files[0], 1), f'only {n_sites} call sites of in-place mutators found')
